@@ -13,7 +13,10 @@ for k in known:
         by_commit.setdefault(k["commit"], set()).update(k.get("detected_by", [k["property"]]))
         if k.get("revert_from"):
             upto[k["commit"]] = k["revert_from"]  # a later follow-up commit touched the same lines: revert both together
+manual = {k["commit"] for k in known if k.get("revert_manual")}  # reverse patch kept by hand (later commits touched the neighbouring lines)
 for c, props in sorted(by_commit.items()):
+    if c in manual:
+        continue
     diff = subprocess.run(["git", "-C", "/repo", "diff", upto.get(c, c), c + "~1"], capture_output=True, text=True).stdout
     if c in upto:
         # restrict to the files of the fix itself
